@@ -410,6 +410,11 @@ func checkC18(P *Prog, r *Result) {
 	}
 	r.floor("C18/guarded-convert", 6)
 	r.floor("C18/strconv-err", 2)
+	// the numeric coercers apply the documented parse to each input type (base-10 Atoi / ParseFloat 64 ...): a
+	// different parse (base 0 reads "010" as 8) silently changes a number (C03's coercion table, numeric rows)
+	shareRule(P, r, checkC03, "C03/coercion-table", func(o Obligation) bool {
+		return strings.Contains(o.Construct, ".Int") || strings.Contains(o.Construct, ".Float") || strings.Contains(o.Construct, "zog.Int") || strings.Contains(o.Construct, "zog.Float")
+	}, "C18/numeric-parse-table", 2)
 	r.Extra["numeric_coercers"] = len(coercers)
 	r.Extra["conversions_classified"] = nConv
 }
